@@ -94,6 +94,12 @@ Fixpoint calls_eqb (a b : list (N * N)) : bool :=
   | _, _ => false
   end.
 
+Definition is_multipart (o : sobs) : bool :=
+  (o_status o =? 206) && negb (has_hdr H_CONTENT_RANGE (o_hdrs o)) && has_hdr H_CONTENT_TYPE (o_hdrs o).
+Definition MP_CLOSE : bytes := [13; 10] ++ bs "--B--" ++ [13; 10].
+Definition ends_with (suffix s : bytes) : bool := starts_with (rev suffix) (rev s).
+Fixpoint calls_total (calls : list (N * N)) : N := match calls with [] => 0 | (a, e) :: t => (e - a) + calls_total t end.
+
 (* ---- C01: announced length equals delivered bytes ---- *)
 Definition spec_c01 (i : sinput) (o : sobs) : list val :=
   let cl := hdr_values H_CONTENT_LENGTH (o_hdrs o) in
@@ -110,7 +116,16 @@ Definition spec_c01 (i : sinput) (o : sobs) : list val :=
         check (match o_hint0 o with Some h => total_delivered <=? h | None => true end) "C01" "never-more-than-announced"
         ++ match term with
            | Some OEnd => check (opt_eqb (o_hint0 o) (Some delivered)) "C01" "clean-end-delivers-announced"
-           | _ => []
+           | Some _ =>
+               (* an honest entity whose representation was delivered completely (every byte of every
+                  requested range; for multipart up to and including the closing delimiter), but the
+                  body does not end cleanly: the complete body's length must still be the announced one *)
+               if memN (o_status o) [200; 206] && honest_all (i_streams i) (o_calls o) &&
+                  (if is_multipart o then ends_with MP_CLOSE (all_data pre)
+                   else match o_calls o with [_] => calls_total (o_calls o) <=? delivered | _ => false end)
+               then check (opt_eqb (o_hint0 o) (Some delivered)) "C01" "complete-body-differs-from-announced-length"
+               else []
+           | None => []
            end
       else []).
 
@@ -411,8 +426,6 @@ Definition spec_c05 (i : sinput) (hint : range_hint) (o : sobs) : list val :=
   end.
 
 (* ---- C06: multipart wire format ---- *)
-Definition is_multipart (o : sobs) : bool :=
-  (o_status o =? 206) && negb (has_hdr H_CONTENT_RANGE (o_hdrs o)) && has_hdr H_CONTENT_TYPE (o_hdrs o).
 Definition spec_c06 (i : sinput) (hint : range_hint) (o : sobs) : list val :=
   if negb (is_multipart o) then [] else
   let L := e_len (i_ent i) in
@@ -468,6 +481,12 @@ Definition spec_c07 (i : sinput) (o : sobs) : list val :=
    | Some OEnd => check (streams_complete (i_streams i) (o_calls o)) "C07" "clean-end-only-when-every-stream-was-complete"
    | _ => []
    end)
+  ++ (* "error skips the trailer": a multipart body never reaches its closing delimiter once a part's
+        stream was short, long or failed -- whatever happens afterwards (error, end, or a panic) *)
+     (if is_multipart o && negb (streams_complete (i_streams i) (o_calls o)) then
+        check (negb (ends_with MP_CLOSE (all_data (o_polls o))))
+          "C07" "closing-delimiter-only-after-every-part-was-complete"
+      else [])
   ++ match o_hint0 o with
      | Some h => check (no_data_beyond h (o_polls o)) "C07" "nothing-beyond-announced-length"
      | None => []
